@@ -476,57 +476,145 @@ func (ex *Exec) Choose(n int, tag string) int {
 	return 0
 }
 
-// Concretize picks a concrete value for t, forking over all feasible values (bounded).
+// Concretize picks a concrete value for t, forking over all feasible values (bounded): the feasible
+// values are enumerated with blocking clauses, one alternative path is queued per value.
 func (ex *Exec) Concretize(t *Term, what string) uint64 {
 	if t.IsConst() {
 		return t.val
 	}
 	tt := ex.tt
-	for n := 0; ; n++ {
-		if n > ex.cfg.maxConcretize {
+	if len(ex.trace) < len(ex.prefix) {
+		d := ex.prefix[len(ex.trace)]
+		ex.trace = append(ex.trace, d)
+		ex.addPC(tt.Eq(t, tt.BV(d.val, t.w)))
+		ex.model = nil
+		if len(ex.trace) == len(ex.prefix) && d.model != nil && !ex.pcHasUF() {
+			ex.model = d.model
+		}
+		ex.trace[len(ex.trace)-1].model = nil
+		return d.val
+	}
+	type cand struct {
+		v uint64
+		m *Model
+	}
+	var cands []cand
+	blocked := tt.True
+	for {
+		var v uint64
+		var m *Model
+		got := false
+		if !t.hasUF && ex.ensureModel() {
+			if len(cands) == 0 {
+				if x, ok := ex.evalModel(t); ok {
+					v, m, got = x, ex.model, true
+				}
+			}
+			if !got {
+				r, mm := ex.check(blocked, true)
+				if r == Unsat {
+					break
+				}
+				if r == Sat && mm != nil {
+					if x, ok := tt.Eval(t, mm, map[int32]uint64{}); ok {
+						v, m, got = x, mm, true
+					}
+				}
+			}
+		}
+		if !got {
+			conds := append(append([]*Term(nil), ex.pc...), blocked)
+			r, mm := ex.solver.Check(conds, true, ex.inputs, []*Term{t})
+			if r == Unsat {
+				break
+			}
+			if r != Sat || mm == nil {
+				panic(pathEnd{kind: "solver-unknown", msg: "cannot enumerate values of " + what})
+			}
+			v = mm.vals[fmt.Sprintf("#t%d", t.id)]
+			m = nil
+		}
+		cands = append(cands, cand{v, m})
+		if len(cands) > ex.cfg.maxConcretize {
 			panic(pathEnd{kind: "bound", msg: fmt.Sprintf("more than %d feasible values for %s", ex.cfg.maxConcretize, what)})
 		}
-		var v uint64
-		if len(ex.trace) < len(ex.prefix) {
-			v = ex.prefix[len(ex.trace)].val
-		} else {
-			ok := false
-			if ex.ensureModel() {
-				v, ok = ex.evalModel(t)
-			}
-			if !ok {
-				// fall back to asking the solver for a value of t
-				r, m := ex.solver.Check(ex.pc, true, ex.inputs, []*Term{t})
-				if r == Unsat {
-					panic(pathEnd{kind: "infeasible"})
+		if len(cands) == 8 && !t.hasUF {
+			// many values: if they fit a small interval, take the whole interval (a value that is
+			// in fact infeasible only produces a path that ends at its first feasibility check)
+			if lo, hi, ok := ex.valueRange(t); ok && hi-lo < uint64(ex.cfg.maxConcretize) {
+				cands = cands[:0]
+				for x := lo; ; x++ {
+					cands = append(cands, cand{x, nil})
+					if x == hi {
+						break
+					}
 				}
-				if r != Sat || m == nil {
-					panic(pathEnd{kind: "solver-unknown", msg: "cannot concretize " + what})
-				}
-				v = m.vals[fmt.Sprintf("#t%d", t.id)]
+				break
 			}
 		}
-		eq := tt.Eq(t, tt.BV(v, t.w))
-		if ex.decideVal(eq, v) {
-			return v
+		blocked = tt.BAnd(blocked, tt.BNot(tt.Eq(t, tt.BV(v, t.w))))
+	}
+	if len(cands) == 0 {
+		panic(pathEnd{kind: "infeasible"})
+	}
+	for k := len(cands) - 1; k >= 1; k-- {
+		ex.pushAlt(decision{kind: 2, val: cands[k].v, model: cands[k].m})
+	}
+	ex.trace = append(ex.trace, decision{kind: 2, val: cands[0].v})
+	ex.addPC(tt.Eq(t, tt.BV(cands[0].v, t.w)))
+	ex.model = cands[0].m
+	if t.hasUF {
+		ex.model = nil
+	}
+	if ex.model == nil {
+		// the first candidate of an interval may be infeasible
+		if r, _ := ex.check(nil, false); r == Unsat {
+			panic(pathEnd{kind: "infeasible"})
 		}
 	}
+	return cands[0].v
 }
 
-// decideVal is Decide with the candidate value stored in the decision (so replay needs no solver).
-func (ex *Exec) decideVal(c *Term, v uint64) bool {
-	n := len(ex.trace)
-	r := ex.Decide(c)
-	if len(ex.trace) > n {
-		ex.trace[n].val = v
-		// patch alternatives pushed by this decision
-		for _, alt := range ex.pending {
-			if len(alt) == n+1 {
-				alt[n].val = v
-			}
+// valueRange finds the unsigned minimum and maximum of t under the path condition by bisection.
+func (ex *Exec) valueRange(t *Term) (lo, hi uint64, ok bool) {
+	tt := ex.tt
+	feasible := func(c *Term) (bool, bool) {
+		r, _ := ex.check(c, false)
+		if r == Unknown {
+			return false, false
+		}
+		return r == Sat, true
+	}
+	// maximum: largest m such that t >= m is feasible
+	l, h := uint64(0), mask(t.w)
+	for l < h {
+		mid := l + (h-l)/2 + (h-l)%2
+		f, k := feasible(tt.Ule(tt.BV(mid, t.w), t))
+		if !k {
+			return 0, 0, false
+		}
+		if f {
+			l = mid
+		} else {
+			h = mid - 1
 		}
 	}
-	return r
+	hi = l
+	l, h = 0, hi
+	for l < h {
+		mid := l + (h-l)/2
+		f, k := feasible(tt.Ule(t, tt.BV(mid, t.w)))
+		if !k {
+			return 0, 0, false
+		}
+		if f {
+			h = mid
+		} else {
+			l = mid + 1
+		}
+	}
+	lo = l
+	return lo, hi, true
 }
 
 // ---------------------------------------------------------------- assertions
@@ -555,6 +643,12 @@ func (ex *Exec) knownRegionTerms(r *Runner) (listed []regionDecl) {
 }
 
 func (ex *Exec) assertCheck(r *Runner, h *Harness, tag string, cond *Term) {
+	ex.assertCheckP(r, h, tag, cond, nil)
+}
+
+// assertCheckP: like assertCheck; when prefer is given, a counterexample that also satisfies prefer
+// is looked for first (used to obtain replayable allocation sizes).
+func (ex *Exec) assertCheckP(r *Runner, h *Harness, tag string, cond *Term, prefer *Term) {
 	tt := ex.tt
 	h.mu.Lock()
 	h.Obligations++
@@ -573,6 +667,11 @@ func (ex *Exec) assertCheck(r *Runner, h *Harness, tag string, cond *Term) {
 		outside = tt.BAnd(outside, tt.BNot(rg.cond))
 	}
 	res, m := ex.check(outside, true)
+	if res == Sat && prefer != nil {
+		if r2, m2 := ex.check(tt.BAnd(outside, prefer), true); r2 == Sat {
+			m = m2
+		}
+	}
 	switch res {
 	case Unsat:
 		if len(listed) == 0 {
@@ -583,6 +682,11 @@ func (ex *Exec) assertCheck(r *Runner, h *Harness, tag string, cond *Term) {
 			found := false
 			for _, rg := range listed {
 				r2, m2 := ex.check(tt.BAnd(neg, rg.cond), true)
+				if r2 == Sat && prefer != nil {
+					if r3, m3 := ex.check(tt.BAnd(tt.BAnd(neg, rg.cond), prefer), true); r3 == Sat {
+						m2 = m3
+					}
+				}
 				if r2 == Sat {
 					found = true
 					in, order := ex.modelInputs(m2)
